@@ -8,9 +8,9 @@ import ftutil as U
 
 ID = "C07"
 THEOREMS = ["C07_zrange", "C07_zrange_sorted", "C07_iterRange", "C07_start_pos", "C07_rangeShape",
-            "C07_rangeShapeRef", "C07_ref_post", "C07_dispatch", "C07_coiter", "C07_coiterRef",
-            "C07_project", "C07_project_compressed", "C07_project_sorted", "C07_prune", "C07_lazy_idempotent",
-            "C07_fromLazy_partial", "C07_model_meets_spec"]
+            "C07_rangeShapeRef", "C07_ref_post", "C07_dispatch", "C07_dispatch_owned", "C07_coiter", "C07_coiterRef",
+            "C07_project", "C07_project_compressed", "C07_project_window", "C07_project_sorted", "C07_prune", "C07_lazy_idempotent",
+            "C07_fromLazy", "C07_fromLazy_applies", "C07_model_meets_spec"]
 COQ_IMPORTS = "From FT Require Import Model.Base Model.Obs Model.C07Iter Model.C07IterCheck."
 CHECK_VO = ["Model/C07IterCheck.v"]
 CHECKER = "c07_checker"
@@ -19,12 +19,12 @@ SHARD = 120
 
 RULE = ("case = (one fiber of depth 1-2 over coordinates -4..8 with absent / explicit-default / value "
         "elements (empty sub-fibers at depth 2), leaf default 0 or 3 (then 0 is a value), shape "
-        "None/fitting/arbitrary, active range None/arbitrary incl. empty and inverted, format C/U; up to "
+        "None/fitting/arbitrary, active range None/arbitrary incl. empty and inverted, format C/U, free-standing or owned as the root of a one-rank tensor whose rank format differs from the fiber's own; up to "
         "two more fibers for co-iteration; 6-10 operations each run on a fresh copy: "
         "iterOccupancy/iterRange/iterActive/__iter__ with every legal start_pos or none, "
         "iterShape/iterActiveShape/iterRangeShape(+Ref) with steps 1-3 and ranges incl. empty, inverted, "
         "beyond shape, coiter*Shape(+Ref) over 1-3 fibers traversed twice, project with k in -3..3 \\ 0, "
-        "b in -5..5, optional interval, legal start_pos, traversed twice + fromLazy, prune with a "
+        "b in -7..5, optional interval, legal start_pos, traversed twice + fromLazy, iterRange windows over a projection, prune with a "
         "predicate on (index, coordinate, payload) traversed twice + fromLazy); observation = yielded "
         "(coordinate, payload value, position of the payload object in the fiber afterwards), stored "
         "elements afterwards, getSavedPos(). distinct = distinct canonical JSON of the case; "
@@ -35,9 +35,8 @@ TRUSTED = ["Coq 8.16.1 kernel (coqc; coqchk in the thorough tier); vm_compute us
            "1026-1078, 1179-1341 (with proposed fixes S20 and S23), tied to the working tree by the "
            "differential correspondence check of this run",
            "Python's range(start, end, step) is modelled by zrange (characterised by C07_zrange)",
-           "Fiber.fromLazy's populate machinery is summarised as 'store every offered element' (C05 owns it)",
-           "harness: harness/check.py, harness/props/c07.py, CPython 3.12 running the implementation"]
-ASSUMPTIONS = ["unowned fibers with integer coordinates, strictly ascending stored coordinates (C01)",
+                      "harness: harness/check.py, harness/props/c07.py, CPython 3.12 running the implementation"]
+ASSUMPTIONS = ["free-standing fibers (depth 1-2) or root fibers of one-rank tensors, integer coordinates, strictly ascending stored coordinates (C01)",
                "Metrics collection off",
                "a start_pos is legal iff it is a position of the fiber and every element before it is below "
                "the start of the slice or empty; project additionally asserts coords[start_pos-1] < interval[0]",
@@ -106,6 +105,11 @@ def est_shape(es):
     return es[-1][0] + 1 if es else 0
 
 
+def eff_U(case):
+    """the format __iter__ follows: the owner rank's if the fiber is owned, else its own"""
+    return case["fmtU"] if case.get("owner") is None else case["owner"]
+
+
 def active_of(case):
     if case["active"] is not None:
         return case["active"]
@@ -121,7 +125,7 @@ def gen_op(rng, case, kind=None):
     es, d = case["es"], case["d"]
     kind = kind or rng.choice(["occ", "range", "range", "active", "shape", "ashape", "rshape", "rshape",
                                "iter", "coshape", "coashape", "corshape", "project", "project",
-                               "project", "prune", "prune"])
+                               "project", "prune", "prune", "window"])
     if kind == "occ":
         return {"op": "occ", "sp": pick_sp(rng, es, d, lambda c: False)}
     if kind == "range":
@@ -132,7 +136,7 @@ def gen_op(rng, case, kind=None):
         a0 = active_of(case)[0]
         return {"op": "active", "sp": pick_sp(rng, es, d, lambda c: c < a0)}
     if kind == "iter":
-        if case["fmtU"]:
+        if eff_U(case):
             return {"op": "iter", "sp": rng.choice([None, 0, 1, 50])}
         return {"op": "iter", "sp": pick_sp(rng, es, d, lambda c: False)}
     if kind in ("shape", "ashape", "coshape", "coashape"):
@@ -156,13 +160,18 @@ def gen_op(rng, case, kind=None):
                    if iv is None or p == 0 or es[p - 1][0] < iv[0]]
             sp = rng.choice(sps) if sps else None
         return {"op": "project", "k": k, "b": b, "iv": iv, "sp": sp}
+    if kind == "window":
+        o = gen_op(rng, case, "project")
+        lo = rng.choice([None, 0, 0, rng.randint(-12, 12)])
+        hi = rng.choice([None, lo, rng.randint(-12, 14), rng.randint(0, 14)])
+        return {"op": "window", "k": o["k"], "b": o["b"], "iv": o["iv"], "lo": lo, "hi": hi}
     if kind == "prune":
         m = rng.randint(1, 4)
         pr = {"a": rng.randint(-1, 2), "b": rng.randint(-1, 2), "e": rng.randint(0, 1), "m": m,
               "th": rng.randint(0, m)}
         sp = None
         if es and rng.random() < 0.4:
-            sp = rng.randrange(len(es)) if case["fmtU"] else pick_sp(rng, es, d, lambda c: False, 1.0)
+            sp = rng.randrange(len(es)) if eff_U(case) else pick_sp(rng, es, d, lambda c: False, 1.0)
         return {"op": "prune", "sp": sp, **pr}
     raise ValueError(kind)
 
@@ -178,8 +187,11 @@ def gen_case(rng, depth=None, zero_only=False, nops=None, kinds=None):
     if rng.random() < 0.35:
         a0 = rng.choice([0, rng.randint(MINC - 1, MAXC)])
         active = [a0, rng.choice([a0, a0 - 1, rng.randint(a0, MAXC + 3)])]
-    case = {"es": es, "d": d, "shape": shape, "active": active, "fmtU": rng.random() < 0.3,
-            "others": [gen_es(rng, d, depth) for _ in range(rng.choice([0, 1, 1, 2]))]}
+    owner = None
+    if depth == 1 and rng.random() < 0.3:
+        owner = rng.random() < 0.5      # root fiber of a one-rank tensor; the rank's format is "U"?
+    case = {"es": es, "d": d, "shape": shape, "active": active, "fmtU": rng.random() < (0.5 if owner is not None else 0.3),
+            "owner": owner, "others": [gen_es(rng, d, depth) for _ in range(rng.choice([0, 1, 1, 2]))]}
     n = nops or rng.randint(6, 10)
     case["ops"] = [gen_op(rng, case, rng.choice(kinds) if kinds else None) for _ in range(n)]
     return case
@@ -191,7 +203,7 @@ def streams(tier, rng):
     yield ("random", [gen_case(rng) for _ in range(n)], False)
     yield ("all-default", [gen_case(rng, depth=1, zero_only=True, kinds=["project", "prune", "occ", "shape", "iter"])
                            for _ in range(60 if not big else 600)], False)
-    yield ("lazy", [gen_case(rng, kinds=["project", "project", "prune"]) for _ in range(250 if not big else 4000)], False)
+    yield ("lazy", [gen_case(rng, kinds=["project", "project", "prune", "window"]) for _ in range(250 if not big else 4000)], False)
     yield ("boundary", boundary_cases(rng, 120 if not big else 1500), False)
     if big:
         yield ("exhaustive-4coords", exhaustive_cases(), True)
@@ -228,8 +240,9 @@ def exhaustive_cases():
     out = []
     for pat, off in itertools.product(itertools.product([None, 0, 4], repeat=4), (0, -2)):
         es = [[c + off, v] for c, v in enumerate(pat) if v is not None]
-        for fmtU in (False, True):
-            case = {"es": es, "d": 0, "shape": None, "active": None, "fmtU": fmtU, "others": [[[1, 2]]]}
+        for fmtU, owner in ((False, None), (True, None), (False, True), (True, False)):
+            case = {"es": es, "d": 0, "shape": None, "active": None, "fmtU": fmtU, "owner": owner,
+                    "others": [[[1, 2]]]}
             ops = [{"op": "iter", "sp": None}, {"op": "shape", "ref": False}, {"op": "shape", "ref": True},
                    {"op": "coashape", "ref": True}]
             for lo, hi in [(None, None), (1, 3), (2, 2), (0, 9), (3, 1), (0, 0), (0, 2), (-1, 2)]:
@@ -252,12 +265,13 @@ def nontrivial(case):
 def describe(case):
     kinds = sorted({o["op"] for o in case["ops"]})
     return {"depth": 1 if all(isinstance(s, int) for _, s in case["es"]) else 2,
-            "format": "U" if case["fmtU"] else "C",
+            "format": "U" if eff_U(case) else "C",
+            "owned": case.get("owner") is not None,
             "explicit_default": U.has_explicit_default(case["es"], case["d"]),
             "all_stored_empty": bool(case["es"]) and U.is_empty_lit(case["es"], case["d"]),
             "nonzero_default": case["d"] != 0,
             "any_start_pos": any(o.get("sp") is not None for o in case["ops"]),
-            "reversing_projection": any(o["op"] == "project" and o["k"] < 0 for o in case["ops"]),
+            "reversing_projection": any(o["op"] in ("project", "window") and o["k"] < 0 for o in case["ops"]),
             "ref_mode": any(o.get("ref") for o in case["ops"]),
             "ops": len(case["ops"])}
 
@@ -291,6 +305,9 @@ def op_to_coq(o):
     if k == "project":
         iv = "None" if o["iv"] is None else "(Some (%s, %s))" % (L.z(o["iv"][0]), L.z(o["iv"][1]))
         return "(OpProject %s %s %s %s)" % (L.z(o["k"]), L.z(o["b"]), iv, zo(o["sp"]))
+    if k == "window":
+        iv = "None" if o["iv"] is None else "(Some (%s, %s))" % (L.z(o["iv"][0]), L.z(o["iv"][1]))
+        return "(OpWindow %s %s %s %s %s)" % (L.z(o["k"]), L.z(o["b"]), iv, zo(o["lo"]), zo(o["hi"]))
     if k == "prune":
         return "(OpPrune (Build_pred %s %s %s %s %s) %s)" % (
             L.z(o["a"]), L.z(o["b"]), L.z(o["e"]), L.z(o["m"]), L.z(o["th"]), zo(o["sp"]))
@@ -299,7 +316,8 @@ def op_to_coq(o):
 
 def case_to_coq(c):
     act = "None" if c["active"] is None else "(Some (%s, %s))" % (L.z(c["active"][0]), L.z(c["active"][1]))
-    fiber = "(Build_fiber %s %s %s %s %s)" % (fibl(c["es"]), L.z(c["d"]), zo(c["shape"]), act, L.b(c["fmtU"]))
+    fiber = "(Build_fiber %s %s %s %s %s %s)" % (fibl(c["es"]), L.z(c["d"]), zo(c["shape"]), act, L.b(c["fmtU"]),
+                                                 L.opt(c.get("owner"), L.b))
     return "(Build_c07_case %s %s %s)" % (fiber, L.lst(fibl(o) for o in c["others"]),
                                           L.lst(op_to_coq(o) for o in c["ops"]))
 
@@ -353,10 +371,17 @@ def _pred(o):
 def run_op(case, o):
     from fibertree import Fiber, Payload
     fs = [_build(case["es"], case["d"], case["shape"], case["active"], case["fmtU"])]
+    if case.get("owner") is not None:
+        # the fiber becomes the root of a one-rank tensor; its own RankAttrs keep their format
+        from fibertree import Tensor
+        T = Tensor.fromFiber(rank_ids=["M"], fiber=fs[0], default=case["d"])
+        T.setFormat("M", "U" if case["owner"] else "C")
+        assert T.getRoot() is fs[0] and fs[0].getOwner() is not None
     fs += [_build(t, case["d"]) for t in case["others"]]
     f = fs[0]
     k = o["op"]
     involved = fs if k.startswith("co") else [f]
+    extra = []
 
     def single(it):
         got = [(c, p, _val(p)) for c, p in it]
@@ -373,7 +398,9 @@ def run_op(case, o):
         a = single(lz)
         b_ = single(lz)
         m = Fiber.fromLazy(lz)
-        return [a, b_, U.content([[c, _val(p)] for c, p in zip(m.coords, m.payloads)], case["d"])]
+        snap = [[c, _val(p)] for c, p in zip(m.coords, m.payloads)]
+        extra.append(snap)
+        return [a, b_, U.content(snap, case["d"])]
 
     try:
         if k == "occ":
@@ -406,6 +433,11 @@ def run_op(case, o):
             lz = f.project(trans_fn=lambda c: kk * c + bb,
                            interval=None if o["iv"] is None else tuple(o["iv"]), start_pos=o["sp"])
             res = lazy3(lz)
+        elif k == "window":
+            kk, bb = o["k"], o["b"]
+            lz = f.project(trans_fn=lambda c: kk * c + bb,
+                           interval=None if o["iv"] is None else tuple(o["iv"]))
+            res = [single(lz.iterRange(o["lo"], o["hi"]))]
         elif k == "prune":
             res = lazy3(f.prune(_pred(o), start_pos=o["sp"]))
         else:
@@ -415,6 +447,8 @@ def run_op(case, o):
     except Exception as e:      # incl. StopIteration
         res = [-1, 9]
     post = [[[c, _val(p)] for c, p in zip(g.coords, g.payloads)] for g in involved]
+    if k in ("project", "prune"):
+        return [res, post, [f.getSavedPos(), extra[0] if extra else []]]
     return [res, post, f.getSavedPos()]
 
 
@@ -460,9 +494,14 @@ def shrinks(case):
             c = copy.deepcopy(case)
             c["ops"][0]["sp"] = None
             yield c
-        if case["fmtU"]:
+        if case["fmtU"] and case.get("owner") is None:
             c = copy.deepcopy(case)
             c["fmtU"] = False
+            yield c
+        if case.get("owner") is not None:
+            c = copy.deepcopy(case)
+            c["fmtU"] = c["owner"]
+            c["owner"] = None
             yield c
 
 
